@@ -313,6 +313,44 @@ fn render_history(ctx: &Ctx, st: &mut Stats, seed: u64, png: bool, j: &J) {
             Err(p) => return fail(st, "render-panic", p),
         }
     }
+    // the file system is a place to keep state too: every sixth history writes a BIGGER symbol and then this one to
+    // the same path; what the file holds afterwards may depend on this symbol and these options only
+    if seed % 6 == 0 {
+        let dir = std::env::var_os("VCHECK_TARGET_DIR").map(std::path::PathBuf::from).unwrap_or_else(|| ctx.root.join("harness/target")).join("scratch");
+        let _ = std::fs::create_dir_all(&dir);
+        let path = dir.join(format!("c14-{}-{seed:016x}.{}", std::process::id(), if png { "png" } else { "svg" }));
+        let path_s = path.to_string_lossy().to_string();
+        let bigger = adapter::build(&Config { input: vec![b'Z'; 40], mode: None, level: Some(3), version: Some((qr.version.map(adapter::version_no).unwrap_or(1) + 6).min(40)), mask: None });
+        let r = adapter::guarded(|| -> Result<(Vec<u8>, Vec<u8>), String> {
+            if let Outcome::Ok(bq) = &bigger {
+                if png {
+                    spec.image_builder_canonical().to_file(bq, &path_s).map_err(|e| format!("{e:?}"))?;
+                } else {
+                    spec.svg_builder_canonical().to_file(bq, &path_s).map_err(|e| format!("{e:?}"))?;
+                }
+            }
+            let want = if png {
+                spec.image_builder_canonical().to_file(&qr, &path_s).map_err(|e| format!("{e:?}"))?;
+                spec.image_builder_canonical().to_bytes(&qr).map_err(|e| format!("{e:?}"))?
+            } else {
+                spec.svg_builder_canonical().to_file(&qr, &path_s).map_err(|e| format!("{e:?}"))?;
+                spec.svg_builder_canonical().to_str(&qr).into_bytes()
+            };
+            let got = std::fs::read(&path_s).map_err(|e| e.to_string())?;
+            Ok((want, got))
+        });
+        let _ = std::fs::remove_file(&path);
+        match r {
+            Ok(Ok((want, got))) => {
+                if want != got {
+                    return fail(st, "file-history-dependence", format!("the file written for this symbol holds {} bytes, the in-memory rendering has {}: a bigger symbol had been written to the same path just before", got.len(), want.len()));
+                }
+                st.count("file_renders_after_a_bigger_symbol_at_the_same_path", 1);
+            }
+            Ok(Err(e)) => st.inconclusive(format!("file history: scratch write failed: {e}")),
+            Err(p) => return fail(st, "render-panic", p),
+        }
+    }
     if adapter::digest(&qr) != before {
         return fail(st, "render-mutates", "rendering modified the QRCode".into());
     }
